@@ -260,7 +260,7 @@ func (g *G) genOptions() {
 	defer t.End()
 	o := Options{MaxStepsPerSprint: 100, MaxResumesPerSession: 500, MaxTemplateChars: 10000, MaxFieldChars: 640, MaxResultChars: 640, MaxBodyBytes: 10000}
 	if g.P.NoTruncation {
-		o.MaxTemplateChars, o.MaxFieldChars, o.MaxResultChars = 1000000, 1000000, 1000000
+		o.MaxTemplateChars, o.MaxFieldChars, o.MaxResultChars = 50000, 50000, 50000 // far above anything but runaway feedback loops, which must stay bounded
 	}
 	if !g.P.FewKnobs {
 		o.MaxStepsPerSprint = []int{100, 25, 10, 5, 3, 2, 1}[t.Weighted("maxsteps", 8, 3, 3, 2, 2, 1, 1)]
